@@ -621,6 +621,10 @@ func (mr *machineRun) runRole(role string, t *obsTriple, idx int, cases []opCase
 		} else {
 			x.run(st, fn, params, nil, func(s2 *State, ex Exit) { ends = append(ends, pathEnd{s2, ex}) })
 		}
+	case *ssa.Function:
+		// a closure without free variables
+		pos = x.pos(a.Pos())
+		x.run(st, a, params, nil, func(s2 *State, ex Exit) { ends = append(ends, pathEnd{s2, ex}) })
 	default:
 		// a user-supplied function or something we cannot see through
 		mr.u.Errs = append(mr.u.Errs, fmt.Sprintf("%s/%s: callback is not a literal closure (%T)", mr.sp.Name, role, arg))
